@@ -1139,6 +1139,10 @@ impl super::DiskFS for Disk {
                 let dir = self.get_directory(&parent.cluster1)?;
                 let entry_ptr = Ptr::Entry(finfo.idx);
                 let mut entry = dir.get_entry(&entry_ptr);
+                if entry.get_attr(directory::READ_ONLY) {
+                    error!("cannot delete read-only file");
+                    return Err(Box::new(Error::WriteProtect));
+                }
                 entry.erase(false);
                 self.writeback_directory_entry(&mut EntryLocation {
                     cluster1: parent.cluster1,
